@@ -723,4 +723,67 @@ theorem sim_entry {fix t0 h s} (hs : Sim fix t0 h s) (t : Nat) (e : EntryOp) (hT
           · rw [other id' hid]; simp only [findE_cons, hid, if_false, hents1]; exact hs.ents id'
         · simp only [hlog1, hs.log]; simp [recLog, recContrib, hi, ho]
 
+theorem sim_step {fix t0 h s} (hs : Sim fix t0 h s) (x : TOp) (hT : lastT t0 h ≤ x.1) (ht : 0 < x.1) :
+    Sim fix t0 (x :: h) (step fix s x) := by
+  obtain ⟨t, op⟩ := x
+  cases op with
+  | entry e => exact sim_entry hs t e hT ht
+  | trace id err => exact sim_trace hs t id err hT
+  | exit id err => exact sim_exit hs t id err hT ht
+
+theorem t0_le_lastT (t0 : Nat) (h : List TOp) (hm : MonoR t0 h) : t0 ≤ lastT t0 h := by
+  induction h with
+  | nil => exact le_refl _
+  | cons x r ih => exact le_trans (ih hm.2) hm.1
+
+/-- the invariant holds after every time-monotone history -/
+theorem sim_runR (fix : Bool) (t0 : Nat) (h : List TOp) (h0 : 0 < t0) (hm : MonoR t0 h) :
+    Sim fix t0 h (runR fix t0 h) := by
+  induction h with
+  | nil => exact sim_init fix t0
+  | cons x r ih =>
+    have h1 := t0_le_lastT t0 r hm.2
+    exact sim_step (ih hm.2) x hm.1 (by have := hm.1; omega)
+
+/-! ## reading a node -/
+
+theorem sum_filter_eq_readW (sl : List (Slot Bucket)) (p : Slot Bucket → Bool) (lo hi : Nat)
+    (hp : ∀ s ∈ sl, (lo ≤ s.start ∧ s.start ≤ hi) → p s = true) :
+    ((sl.filter fun s => p s && decide (lo ≤ s.start ∧ s.start ≤ hi)).map (·.val)).sum = readW sl lo hi := by
+  unfold readW
+  induction sl with
+  | nil => rfl
+  | cons s r ih =>
+    have ihr := ih (fun s hs => hp s (List.mem_cons_of_mem _ hs))
+    by_cases hw : lo ≤ s.start ∧ s.start ≤ hi
+    · have := hp s (List.mem_cons_self ..) hw
+      simp only [List.filter_cons, this, hw, decide_true, Bool.and_self, if_true, List.map_cons,
+        List.sum_cons, and_self] at ihr ⊢
+      rw [ihr]
+    · simp only [List.filter_cons, hw, decide_false, Bool.and_false, List.map_cons,
+        List.sum_cons, if_false, zero_add] at ihr ⊢
+      simpa using ihr
+
+/-- a view of interval `Iv ≤ 10 s` over a node that recorded `ev` reads the aligned-window reference over `ev` -/
+theorem nodeOk_window {n ev g T} (h : NodeOk n ev g T) (now Iv : Nat) (hT : T ≤ now) (hIv : Iv ≤ sampleCountTotal * bucketLen) :
+    viewSum n.arr Iv now = refW bucketLen ev (cbs bucketLen now + bucketLen - Iv) (cbs bucketLen now) := by
+  obtain ⟨hL, hn, _, tc, latest, inv, hl⟩ := h
+  unfold viewSum viewVals rangeOf
+  simp only [hL, hn]
+  have hLpos : 0 < bucketLen := by decide
+  have hc : cbs bucketLen now ≤ now := by unfold cbs; omega
+  have hlt : now < cbs bucketLen now + bucketLen := by
+    unfold cbs; have := Nat.mod_lt now hLpos; omega
+  rw [sum_filter_eq_readW]
+  · have he := inv.e (cbs bucketLen now + bucketLen - Iv) (cbs bucketLen now)
+    rw [hL, hn] at he
+    apply he
+    have : cbs bucketLen latest ≤ cbs bucketLen now := cbs_mono _ (le_trans hl hT)
+    omega
+  · intro s _ hw
+    unfold deprecated
+    have : s.start ≤ now := le_trans hw.2 hc
+    simp only [this, if_true]
+    simp; omega
+
 end Sentinel.Entry
